@@ -269,7 +269,7 @@ def defOrClass : Nat → Nat → List PyExpr → List Tok → List Line → Opti
   | fuel + 1, ind, decos, toks, rest =>
       match toks with
       | .name ['d', 'e', 'f'] :: .name f :: .op ['('] :: ts => do
-          let (items, r) ← itemsP .params tRP ts
+          let (items, r) ← itemsP .defparams tRP ts
           let (po, ar, va, ko, ka) ← assembleParams items
           match r with
           | .op [')'] :: r1 => do
